@@ -64,19 +64,21 @@ Fixpoint dedup (l : list N) : list N :=
 Record Defects := {
   d_notify_unsorted : bool;     (* transaction_manager.go BeginMultiTXs/Report: NotifySrc/NotifyDst id lists in map order *)
   d_timeout_child_order : bool; (* handle.go getTimeoutIBTPsMap: children of a timed-out group appended in map order *)
-  d_perm_first_error : bool;    (* service_manager.go checkServiceInfo: first failing permission id in map order names the error *)
+  d_first_error_order : bool;   (* checkServiceInfo / AppchainManager.checkInfo / checkDappInfo / checkNodeInfo: the first failing key in map order names the error *)
   d_bns_after_flush : bool;     (* genesis.go: initBNSData writes after the genesis block was flushed (lost by a restart before block 2) *)
   d_cache_failed_events : bool; (* handle.go applyTx: SERVICE events of FAILED transactions feed the executor's service cache *)
   d_singleton_mem : bool;       (* registered InterchainManager object: ServiceCache field set by InitServiceCache, nil after restart *)
+  d_stale_persister : bool;     (* registered manager objects keep the Persister of the previous call: promoted core methods fail differently on a fresh process *)
   d_dst_key_first : bool        (* interchain.go addToMultiTxNotifyMap: dst-notified ids filed under the chain of ibtpIDs[0] (C05; deterministic once sorted) *)
 }.
 (** the C01 theorem holds whatever [d_dst_key_first] is *)
-Definition cfg_fixed_with (k : bool) : Defects := Build_Defects false false false false false false k.
+Definition cfg_fixed_with (k : bool) : Defects := Build_Defects false false false false false false false k.
 Definition cfg_fixed : Defects := cfg_fixed_with false.
-Definition cfg_faithful : Defects := Build_Defects true true true true true true true.
+Definition cfg_faithful : Defects := Build_Defects true true true true true true true true.
 Definition c01_clean (c : Defects) : Prop :=
-  d_notify_unsorted c = false /\ d_timeout_child_order c = false /\ d_perm_first_error c = false /\
-  d_bns_after_flush c = false /\ d_cache_failed_events c = false /\ d_singleton_mem c = false.
+  d_notify_unsorted c = false /\ d_timeout_child_order c = false /\ d_first_error_order c = false /\
+  d_bns_after_flush c = false /\ d_cache_failed_events c = false /\ d_singleton_mem c = false /\
+  d_stale_persister c = false.
 
 (* ------------------------------------------------------------------------------------- *)
 (** * Oracles *)
@@ -109,6 +111,8 @@ Definition S_FL1 : N := 16.   (* getStateJournalAndComputeHash: dirtyState.Range
 Definition S_CM0 : N := 17.   (* Commit: accounts / dirtyState.Range -> batch puts *)
 Definition S_GEN0 : N := 18.  (* genesis.Initialize: SetNonce per registered contract *)
 Definition S_PERM : N := 19.  (* checkServiceInfo: permission ids *)
+Definition S_ADMIN : N := 20. (* AppchainManager.checkInfo: new admin addresses *)
+Definition S_R2 : N := 21.    (* Report: remember which children had succeeded (keyed) *)
 
 (* ------------------------------------------------------------------------------------- *)
 (** * Values and keys of the contract state *)
@@ -199,13 +203,14 @@ Definition ib_id (b : ibtp) : N := mk_id (ib_src b) (ib_dst b) (ib_idx b).
 
 Inductive tx :=
 | TOpaque (ok : bool)                                 (* transfer / unmodelled BVM call / malformed: status is an input *)
-| TGov (ok : bool) (evs : list (N * svcrec))          (* governance call: status and SERVICE events are inputs *)
-| TPerm (ids : list N)                                (* RegisterService with these (all illegal) permission ids *)
+| TGov (ok touch : bool) (evs : list (N * svcrec))    (* governance call: status and SERVICE events are inputs; touch = it runs a ServiceManager method *)
+| TPerm (site : N) (ids : list N)                     (* a call whose check ranges over these (all illegal) keys: RegisterService permissions / UpdateAppchain admins *)
+| TPromoted                                           (* a method promoted from the embedded core ServiceManager (no *Response result) called as a transaction *)
 | TIbtp (valid : bool) (b : ibtp)                     (* valid = signature and proof verified *)
 | TInitCache                                          (* BVM InitServiceCache on the registered object *)
 | THandleData (b : ibtp).                             (* BVM HandleIBTPData(bytes), no proof *)
 
-Inductive retc := RNone | RBeginFailure | RBatch | RErr (code : N) | RPerm (id : N).
+Inductive retc := RNone | RBeginFailure | RBatch | RErr (code : N) | RPerm (id : N) | RNilPtr | RIfaceConv.
 (* error codes: 1 invalid (signature/proof), 2 source unavailable, 3 index exists, 4 wrong index, 5 state machine,
    6 unknown tx / group, 7 illegal type, 8 rejected entry point, 9 opaque failure *)
 
@@ -238,12 +243,13 @@ Record memory := {
   m_acache : smap val;           (* account cache (refinement of the disk) *)
   m_svc_cache : smap svcrec;     (* executor serviceCache *)
   m_singleton : bool;            (* registered InterchainManager object: ServiceCache field non-nil *)
+  m_persister : bool;            (* registered ServiceManager object: embedded Persister set by some earlier call of this process *)
   m_height : N;
   m_hash : hsh
 }.
 
 Definition reload (d : disk) : memory :=
-  Build_memory [] [] [] false (dk_height d) (dk_hash d).
+  Build_memory [] [] [] false false (dk_height d) (dk_hash d).
 
 (** reads inside a block: write set, then account cache, then disk *)
 Definition rd (w : smap val) (m : memory) (d : disk) (k : N) : option val :=
@@ -259,7 +265,8 @@ Definition rd (w : smap val) (m : memory) (d : disk) (k : N) : option val :=
 Record view := {
   v_w : smap val;                 (* writes of this block so far *)
   v_cache : smap svcrec;
-  v_single : bool
+  v_single : bool;
+  v_persist : bool
 }.
 
 Section Exec.
@@ -270,7 +277,10 @@ Section Exec.
   Variable h : N.         (* height of the block being executed *)
 
   Definition rdv (v : view) (k : N) : option val := rd (v_w v) m0 d0 k.
-  Definition wr (v : view) (k : N) (x : val) : view := Build_view (sset k x (v_w v)) (v_cache v) (v_single v).
+  Definition wr (v : view) (k : N) (x : val) : view := Build_view (sset k x (v_w v)) (v_cache v) (v_single v) (v_persist v).
+  Definition touch (v : view) : view := Build_view (v_w v) (v_cache v) (v_single v) true.
+  (** node-local memory survives the revert of a failed call *)
+  Definition keep_mem (vnew vold : view) : view := Build_view (v_w vold) (v_cache vold) (v_single vnew) (v_persist vnew).
 
   Definition led_svc (v : view) (s : N) : option svcrec :=
     match rdv v (K_svc s) with Some (VSvc r) => Some r | _ => None end.
@@ -296,11 +306,11 @@ Section Exec.
     | None => []
     | Some l => match l with TEmpty :: _ => [] | _ => l end
     end.
-  (** TransactionManager.addToTimeoutList (appends after a comma even to an empty value) *)
+  (** TransactionManager.addToTimeoutList (an emptied list counts as absent) *)
   Definition tm_add_timeout (v : view) (hh : N) (t : tok) : view :=
     match toks_of v hh with
     | None => wr v (K_tl hh) (VToks [t])
-    | Some l => wr v (K_tl hh) (VToks (l ++ [t]))
+    | Some l => wr v (K_tl hh) (VToks (if is_empty_str l then [t] else l ++ [t]))
     end.
   Definition remove_tok (t : tok) (l : list tok) : list tok := filter (fun x => negb (tok_eqb x t)) l.
   Definition tm_remove_timeout (v : view) (hh : N) (t : tok) : view :=
@@ -330,6 +340,7 @@ Section Exec.
         match sget id ch with
         | Some _ => None
         | None =>
+            if is_final gs then None else
             let '(v1, gs1, ch1, nsrc, ndst) :=
               if negb (gs =? ST_BEGIN) then (v, gs, sset id gs ch, [], [])
               else if isFailed then
@@ -389,12 +400,15 @@ Section Exec.
                                  end
                                else Some (v, gs, ch1)
                            end in
+                    (* which children had already succeeded (keyed accumulation over the map) *)
+                    let succeeded : smap bool :=
+                      fold_right (fun k acc => sset k (match sget k ch with Some 3 => true | _ => false end) acc) [] (visit S_R2 i (skeys ch)) in
                     match res with
                     | None => None
                     | Some (v1, gs1, ch1) =>
                         let others := filter (fun k => negb (k =? id)) (pick (d_notify_unsorted cfg) S_R0 i (skeys ch1)) in
                         let begin_fail := (gs =? ST_BEGIN) && (gs1 =? ST_BEGIN_FAILURE) in
-                        let ndst := if begin_fail then filter (fun k => match sget k ch1 with Some 3 => true | _ => false end) others else [] in
+                        let ndst := if begin_fail then filter (fun k => match sget k succeeded with Some true => true | _ => false end) others else [] in
                         let children := isort (visit S_R1 i (skeys ch1)) in
                         Some (wr v1 (K_glob g) (VGlob gs1 gh gc ch1),
                               Build_change (Some gs) gs1 others ndst children begin_fail)
@@ -422,8 +436,13 @@ Section Exec.
         wr v (K_multi hh) (VMulti m')
     end.
 
+  (** recordService -> ServiceManager.RecordInvokeService: posts the service record as a SERVICE event *)
   Definition record_service (v : view) (s : N) : list (N * svcrec) :=
     match led_svc v s with Some r => [(s, r)] | None => [] end.
+  (** a getServiceByID that misses the cache cross-invokes ServiceManager.GetServiceInfo (which sets its Persister) *)
+  Definition lookup_touch (v : view) (use_cache : bool) (s : N) : bool :=
+    if use_cache then match sget s (v_cache v) with Some _ => false | None => true end else true.
+  Definition touch_if (b : bool) (v : view) : view := if b then touch v else v.
 
   (** HandleIBTP.  [cur] is the contract's notion of the current height (block height on the
       IBTP path, height - 1 for a plain BVM call); [use_cache] = executor cache attached. *)
@@ -433,39 +452,43 @@ Section Exec.
     if negb (isReq || (ib_typ b =? 1) || (ib_typ b =? 2) || (ib_typ b =? 3)) then (v, failed (RErr 7))
     else
     (* checkIBTP *)
-    let chk : option (bool * bool) + N :=   (* inl (isBatch, targetFail) | inr error code *)
+    let vs := touch_if (lookup_touch v use_cache src) v in
+    let chk : (view * bool * bool) + (view * retc) :=   (* inl (view, isBatch, targetFail) | inr error *)
       if isReq then
         match svc_lookup v use_cache src with
         | Some r =>
-            if negb (sv_avail r) then inr 2
+            if negb (sv_avail r) then inr (vs, RErr 2)
             else
+              let vd := touch_if (lookup_touch v use_cache dst) vs in
               let '(isBatch, tfail) :=
                 match svc_lookup v use_cache dst with
                 | Some rd_ => if sv_avail rd_ then (negb (sv_ordered rd_), false) else (false, true)
                 | None => (false, true)
                 end in
-              if isBatch then inl (Some (true, tfail))
+              if isBatch then inl (vd, true, tfail)
               else let exp := num v (K_ic src dst) + 1 in
-                   if ib_idx b <? exp then inr 3 else if exp <? ib_idx b then inr 4 else inl (Some (false, tfail))
-        | None => inr 2
+                   if ib_idx b <? exp then inr (vd, RErr 3) else if exp <? ib_idx b then inr (vd, RErr 4) else inl (vd, false, tfail)
+        | None => inr (vs, RErr 2)
         end
       else
-        let isBatch := match svc_lookup v use_cache src with Some r => negb (sv_ordered r) | None => true end in
-        let exp := num v (K_rc src dst) + 1 in
-        if ib_idx b <? exp then inr 3 else if exp <? ib_idx b then inr 4 else inl (Some (isBatch, false)) in
+        match svc_lookup v use_cache src with
+        | None => inr (vs, RNilPtr)          (* getServiceByID returns nil and the code reads srcService.Ordered *)
+        | Some r =>
+            let exp := num v (K_rc src dst) + 1 in
+            if ib_idx b <? exp then inr (vs, RErr 3) else if exp <? ib_idx b then inr (vs, RErr 4) else inl (vs, negb (sv_ordered r), false)
+        end in
     match chk with
-    | inr e => (v, failed (RErr e))
-    | inl None => (v, failed (RErr 7))
-    | inl (Some (isBatch, tfail)) =>
+    | inr (ve, e) => (ve, failed e)
+    | inl (v0, isBatch, tfail) =>
         let bt : option (view * change) :=
           if isReq then
             match ib_group b with
-            | None => Some (begin_single v b tfail)
-            | Some (g, count) => begin_multi i v b g count tfail
+            | None => Some (begin_single v0 b tfail)
+            | Some (g, count) => begin_multi i v0 b g count tfail
             end
-          else report i v b in
+          else report i v0 b in
         match bt with
-        | None => (v, failed (RErr (if isReq then 6 else 5)))
+        | None => (v0, failed (RErr (if isReq then 6 else 5)))
         | Some (v1, ch) =>
             (* notifySrcDst *)
             let '(nsrc, ndst) := notify_flags (ch_prev ch) (ch_cur ch) in
@@ -482,10 +505,10 @@ Section Exec.
               let '(v4, sev) :=
                 if is_final (ch_cur ch) then
                   match ch_children ch with
-                  | [] => (wr v3 (K_rc src dst) (VNum (ib_idx b)), record_service v3 dst)
+                  | [] => (touch (wr v3 (K_rc src dst) (VNum (ib_idx b))), record_service v3 dst)
                   | cs => fold_left (fun acc c =>
                                        let '(va, ea) := acc in
-                                       (wr va (K_rc (id_src c) (id_dst c)) (VNum (id_idx c)), ea ++ record_service va (id_dst c)))
+                                       (touch (wr va (K_rc (id_src c) (id_dst c)) (VNum (id_idx c))), ea ++ record_service va (id_dst c)))
                                     cs (v3, [])
                   end
                 else (v3, []) in
@@ -495,7 +518,7 @@ Section Exec.
 
   (** ** one transaction (handle.go applyTx): receipt, then harvesting of its events *)
   Definition cache_store (v : view) (evs : list (N * svcrec)) : view :=
-    Build_view (v_w v) (fold_left (fun c e => sset (fst e) (snd e) c) evs (v_cache v)) (v_single v).
+    Build_view (v_w v) (fold_left (fun c e => sset (fst e) (snd e) c) evs (v_cache v)) (v_single v) (v_persist v).
 
   Definition exec_tx (i : N) (invalid : bool) (v : view) (t : tx) : view * receipt :=
     if invalid then (v, failed (RErr 1))
@@ -503,23 +526,28 @@ Section Exec.
     let '(v1, r) :=
       match t with
       | TOpaque ok => (v, Build_receipt ok false (if ok then RNone else RErr 9) None [])
-      | TGov ok evs =>
+      | TGov ok tch evs =>
           let v' := if ok then fold_left (fun a e => wr a (K_svc (fst e)) (VSvc (snd e))) evs v else v in
-          (v', Build_receipt ok false (if ok then RNone else RErr 9) None evs)
-      | TPerm ids =>
-          match pick (d_perm_first_error cfg) S_PERM i ids with
-          | [] => (v, Build_receipt true false RNone None [])
-          | first :: _ => (v, failed (RPerm first))
+          (touch_if tch v', Build_receipt ok false (if ok then RNone else RErr 9) None evs)
+      | TPerm site ids =>
+          let vt := if site =? S_PERM then touch v else v in
+          match pick (d_first_error_order cfg) site i ids with
+          | [] => (vt, Build_receipt true false RNone None [])
+          | first :: _ => (vt, failed (RPerm first))
           end
+      | TPromoted =>
+          (* fresh process: nil Persister -> nil pointer panic; otherwise the method runs against the
+             previous call's stub and the reflective call panics on the non-Response result *)
+          (v, failed (if d_stale_persister cfg then (if v_persist v then RIfaceConv else RNilPtr) else RErr 8))
       | TIbtp valid b => if valid then handle_ibtp i v b h true else (v, failed (RErr 1))
       | TInitCache =>
           (* no *Response result: the reflective call panics after the method ran *)
-          (Build_view (v_w v) (v_cache v) (if d_singleton_mem cfg then true else v_single v), failed (RErr 9))
+          (Build_view (v_w v) (v_cache v) (if d_singleton_mem cfg then true else v_single v) (v_persist v), failed (RErr 9))
       | THandleData b =>
           if d_singleton_mem cfg && v_single v then
             let '(v', r) := handle_ibtp i v b (h - 1) false in
-            if rc_ok r then (v', r) else (v, r)       (* a failed BVM call is reverted *)
-          else (v, failed (RErr 8))
+            if rc_ok r then (v', r) else (keep_mem v' v, r)       (* a failed BVM call is reverted *)
+          else (v, failed RNilPtr)   (* nil ServiceCache field: the call dies on it (in the repaired code always) *)
       end in
     let v2 := if rc_ok r || d_cache_failed_events cfg then cache_store v1 (rc_svc_events r) else v1 in
     (v2, r).
@@ -567,8 +595,7 @@ Section Exec.
                                 (sset hh (match sget hh adds with Some l => l ++ [TId (ib_id b)] | None => [TId (ib_id b)] end) adds, rems)
                          else match rdv v (K_tx (ib_id b)) with
                               | Some (VRec st hh) =>
-                                  if (ib_typ b =? 2) && (st =? ST_FAILURE) then acc
-                                  else (adds, sset hh (match sget hh rems with Some l => l ++ [TId (ib_id b)] | None => [TId (ib_id b)] end) rems)
+                                  (adds, sset hh (match sget hh rems with Some l => l ++ [TId (ib_id b)] | None => [TId (ib_id b)] end) rems)
                               | _ => acc
                               end
                      end
@@ -681,7 +708,7 @@ Definition exec_block (cfg : Defects) (o : oracle) (m : memory) (d : disk) (b : 
   let _t0 := o_clock o h 0 in                                  (* metrics only *)
   let inv := invalid_map o h (b_invalid b) in
   let w0 := fold_left (fun w kv => sset (fst kv) (snd kv) w) (b_seed b) (m_pending m) in
-  let v0 := Build_view w0 (m_svc_cache m) (m_singleton m) in
+  let v0 := Build_view w0 (m_svc_cache m) (m_singleton m) (m_persister m) in
   let '(v1, rs) := exec_txs cfg o m d h 0 inv v0 (b_txs b) in
   let v2 := set_timeout_list o m d h v1 (b_txs b) rs in
   let tmap := timeout_map cfg o m d h 0 v2 (timeout_list m d v2 h) [] in
@@ -696,7 +723,7 @@ Definition exec_block (cfg : Defects) (o : oracle) (m : memory) (d : disk) (b : 
   let counter := keyed_copy o h S_PE2 (counters o h 0 rs []) in
   let st' := commit o h w (dk_state d) in
   let d' := Build_disk st' h hash root (accts :: dk_journals d) (dk_genesis_ts d) in
-  let m' := Build_memory [] (commit o h w (m_acache m)) (v_cache v3) (v_single v3) h hash in
+  let m' := Build_memory [] (commit o h w (m_acache m)) (v_cache v3) (v_single v3) (v_persist v3) h hash in
   (m', d', Build_result h hash root (b_txs b) rs rs counter tcounter l2 mcounter).
 
 (** genesis: the configuration is the initial contract state [g]; the name-service records are
@@ -710,7 +737,7 @@ Definition genesis (cfg : Defects) (o : oracle) (g : list (N * val)) : memory * 
   let hash := HBlock 1 HNone root [] [] in
   let d := Build_disk (commit o 1 w1 []) 1 hash root [accts] (o_clock o 1 0) in
   let pend := if d_bns_after_flush cfg then fold_left (fun w kv => sset (fst kv) (snd kv) w) bns_data [] else [] in
-  let m := Build_memory pend (commit o 1 w1 []) [] false 1 hash in
+  let m := Build_memory pend (commit o 1 w1 []) [] false false 1 hash in
   (m, d, Build_result 1 hash root [] [] [] [] [] [] []).
 
 Definition restart (m : memory) (d : disk) : memory := reload d.
@@ -756,7 +783,7 @@ Record obs := {
   ob_l2 : N
 }.
 Definition ret_class (r : receipt) : N :=
-  match rc_ret r with RNone => 0 | RBeginFailure => 1 | RBatch => 2 | _ => 3 end.
+  match rc_ret r with RNone => 0 | RBeginFailure => 1 | RBatch => 2 | RNilPtr => 4 | RIfaceConv => 5 | _ => 3 end.
 Definition obs_of (r : result) : obs :=
   Build_obs (map (fun x => (rc_ok x, rc_begin_failure x, ret_class x)) (r_receipts r))
             (map (fun kv => (fst kv, map (fun e => (fst (fst e), snd (fst e))) (snd kv))) (r_counter r))
